@@ -32,6 +32,22 @@ example :
     outs (BodyS.run 3 (.exact { stream := [.err, .chunk [7]], remaining := 1 })) =
       [.errEntity, .data [7], .end_] := by decide
 
+/-- (F13) Bodies made by `serve`, any request, any entity behaviour (no proviso), any number of
+polls: the body never polls an entity's stream again after that stream has reported its end. An
+entity stream that panics when polled after its end — `futures::stream::unfold`, hence
+`ChunkedReadFile` — is therefore never given the chance: the "stays finished" half of C20's
+proviso is not needed. (`overpolls` is a ghost counter of exactly those polls, `Model/Body.lean`.) -/
+theorem C20_finished_stream_is_never_polled_again (q : Req) (e : Ent) (now : Nat) (r : Resp)
+    (hlen : e.len < U64) (h : serve q e now = .ok r) (scripts : List (List Ev)) (n : Nat) :
+    ∃ b, BodyS.ofPlan r.plan scripts = .ok b ∧ (BodyS.after n b).overpolls = 0 := by
+  obtain ⟨b, hb, _⟩ := serve_body_inv q e now r hlen h scripts
+  exact ⟨b, hb, after_overpolls_zero hb n⟩
+
+/-- Non-vacuity: the end of the entity's stream is reached and polled past. -/
+example :
+    let b := BodyS.after 5 (.exact { stream := [.chunk [1]], remaining := 1 })
+    b.overpolls = 0 ∧ (match b with | .exact e => e.innerEnded | _ => false) = true := by decide
+
 /-- Stronger for multipart bodies: after a terminal event the state is the end state, and every
 later poll reports the end — whatever the parts' streams do afterwards (the current part's stream
 is dropped on its first error), so no `StaysFailed` proviso is needed here. -/
